@@ -21,6 +21,7 @@ import (
 	"github.com/daeuniverse/dae/component/outbound/dialer"
 	"github.com/daeuniverse/dae/pkg/verifutil"
 	D "github.com/daeuniverse/outbound/dialer"
+	dnsmessage "github.com/miekg/dns"
 	"github.com/daeuniverse/outbound/netproxy"
 )
 
@@ -214,6 +215,13 @@ func c05Segment(kind string, seq int) []byte {
 		return []byte{0xff, 0xfe, 1, 2, 3, 4, 5, 6, 7, 8, 9, 10, 11, 12, 13, 14, 15, 16, 17, byte(seq)}
 	case "dnsjunk":
 		return []byte{0, 5, 9, 9, 9}
+	case "dnsresp":
+		m := new(dnsmessage.Msg)
+		m.SetQuestion("zone.test.", dnsmessage.TypeSOA)
+		m.Response = true
+		m.Id = uint16(seq)
+		b, _ := m.Pack()
+		return append([]byte{byte(len(b) >> 8), byte(len(b))}, b...)
 	case "big", "s-big":
 		b := make([]byte, 70000)
 		for i := range b {
